@@ -32,7 +32,7 @@ def run_property(pid, tier, seed, repo, root, t0):
     for k in known["findings"]:
         if k["property"] == pid:
             for ob in k.get("obligations", [k["obligation"]] if "obligation" in k else []):
-                known_by_ob[ob] = k
+                known_by_ob.setdefault(ob, []).append(k)
     units = []          # per-unit result dicts
     undecided = []      # reasons
     # ------------------------------------------------------------------ generated inputs
@@ -118,26 +118,33 @@ def run_property(pid, tier, seed, repo, root, t0):
     for o in obligations:
         if o["status"] != "failed":
             continue
-        kf = known_by_ob.get(o["name"])
-        if kf is not None and kf.get("cases") and o.get("witness"):
-            # a finding on a bounded stand-in is identified by the failing CASES it lists: any other failing
+        kfs = known_by_ob.get(o["name"], [])
+        if kfs and any(k.get("cases") for k in kfs) and o.get("witness"):
+            # findings on a bounded stand-in are identified by the failing CASES they list: any other failing
             # case of the same stand-in is a violation
             allf = o["witness"].get("found_all") or [o["witness"].get("detail", "")]
-            unmatched = [f for f in allf if not any(c in f for c in kf["cases"])]
+            unmatched = [f for f in allf if not any(c in f for k in kfs for c in k.get("cases", []))]
+            for k in kfs:
+                if any(c in f for f in allf for c in k.get("cases", [])):
+                    k.setdefault("_hit", []).append(o["name"])
             if unmatched:
                 o["witness"] = dict(o["witness"], detail=unmatched[0])
-                o["failing"] = [{"message": "failing input found on the real code (not covered by the known finding)", "text": unmatched[0], "clause": None}]
-                kf = None
-        if kf is not None:
-            for rn in kf.get("residuals", []):
-                resid = by_name.get(rn)
-                if resid is None or resid["status"] != "discharged":
-                    if resid is not None and resid["status"] == "failed":
-                        pass  # the residual is itself reported as a violation below
-                    else:
-                        undecided.append("residual %s of known finding not discharged" % rn)
-            o["known_finding"] = kf["what"]
-            kf.setdefault("_hit", []).append(o["name"])
+                o["failing"] = [{"message": "failing input found on the real code (not covered by a known finding)", "text": unmatched[0], "clause": None}]
+                kfs = []
+            else:
+                kfs = [k for k in kfs if k.get("_hit")]
+        if kfs:
+            for kf in kfs:
+                for rn in kf.get("residuals", []):
+                    resid = by_name.get(rn)
+                    if resid is None or resid["status"] != "discharged":
+                        if resid is not None and resid["status"] == "failed":
+                            pass  # the residual is itself reported as a violation below
+                        else:
+                            undecided.append("residual %s of known finding not discharged" % rn)
+                if o["name"] not in kf.get("_hit", []):
+                    kf.setdefault("_hit", []).append(o["name"])
+            o["known_finding"] = "; ".join(k["id"] for k in kfs if "id" in k) or kfs[0]["what"]
             continue
         if o["role"] == "aux" and cfg.get("aux_failure", "violation") == "undecided":
             undecided.append("%s: auxiliary proof step failed (%s)" % (o["name"], _why(o)))
